@@ -27,6 +27,7 @@ TRUSTED_BASE = [
     "the declarations the proofs assume are re-checked by `rfl` on every run (SchemaTie/Curves.lean)",
 ]
 SCHEMA_TIE = ('Curves',)
+SQL_TIE = ('zeta_grid', 'rise', 'recession')
 ASSUMPTIONS = [
     "grid coverage is decided in floating point by the tool (floor(min/step), ceil(max/step)); the oracle skips levels "
     "whose k*step lies within 1e-9 of min or max",
@@ -66,6 +67,10 @@ def oracle_c13(t):
     rises = {p[1][0]: p for p in im["pairs"]}
     inters = {a: b for a, b in im["interstorms"]}
     rain = t["rainfall_intensity"]
+    import bisect
+    wl = t["water_level"]
+    wl_ep = [e for e, _z in wl]
+    own_cache = {}
     for kind, keyset in (("rising", rises), ("recession", inters)):
         iv = {int(r[0]) for r in t["%s_interval" % kind]}
         for e in iv:
@@ -77,15 +82,17 @@ def oracle_c13(t):
                 return bad(why="crossing row without its interval", table=kind, start_epoch=start)
             if k not in grid:
                 return bad(why="curve level outside the water-level grid", level=k)
-            if kind == "rising":
-                (sa, sb), (ra, rb) = rises[start]
-                depth = sum(Fraction(x[2]) * Fraction(x[1] - x[0], 3600) for x in rain if sa <= x[0] and x[1] <= sb)
-                pts = [(0, lev[ra]), (depth, lev[rb])]
-            else:
-                pts = [(e, z) for e, z in t["water_level"] if start <= e <= inters[start]]
-            own = own_crossings(pts, zstep)
-            Yvals = [Fraction(p[1]) / Fraction(zstep) for p in pts]
-            near = any(abs(Y - round(Y)) < Fraction(1, 10**9) and Y != round(Y) for Y in Yvals)
+            if (kind, start) not in own_cache:
+                if kind == "rising":
+                    (sa, sb), (ra, rb) = rises[start]
+                    depth = sum(Fraction(x[2]) * Fraction(x[1] - x[0], 3600) for x in rain if sa <= x[0] and x[1] <= sb)
+                    pts = [(0, lev[ra]), (depth, lev[rb])]
+                else:
+                    pts = wl[bisect.bisect_left(wl_ep, start):bisect.bisect_right(wl_ep, inters[start])]
+                Yvals = [Fraction(p[1]) / Fraction(zstep) for p in pts]
+                own_cache[kind, start] = (own_crossings(pts, zstep),
+                                          any(abs(Y - round(Y)) < Fraction(1, 10**9) and Y != round(Y) for Y in Yvals))
+            own, near = own_cache[kind, start]
             if k not in own:
                 if near:
                     continue
@@ -171,7 +178,35 @@ def one(ctx, rows, s, j, zstep, desc):
                        {"input": inp, "impl": [r[0] for r in t["discrete_zeta"]], "model": mg})
 
 
+def many_intervals(ctx, n_spells):
+    """A multi-year logger record in a wet climate: thousands of short dry spells separated by single drizzle
+    steps (each spell is an interstorm interval of its own) and a few real storms.  The curves then hold thousands
+    of intervals; every row must still trace back to its own interval (oracle only: the exact model of the
+    least-squares step is not run at this size)."""
+    rng = ctx.rng
+    rows, s, j, level = P.many_spells_rows(rng, n_spells)
+    zstep = 1.0
+    w = P.run_workflow(ctx, rows, s, j, zstep, keep_db=True)
+    st, t = w["status"], w["tables"]
+    P.cleanup(w)
+    inp = {"record": {"kind": "many short dry spells", "n_spells": n_spells, "seed": ctx.seed, "samples": len(level)},
+           "zeta_step": zstep, "s": s, "j": j}
+    ctx.case(("c13-many", n_spells, len(level)), True)
+    if any(st.get(k, ("x",))[0] != "ok" for k in ("load", "classify", "grid", "recession")):
+        ctx.violation("impl-violation", "c13Holds", {"input": inp, "impl": {k: list(v) for k, v in st.items()}, "oracle": {
+            "name": "c13Holds", "result": False, "witness": {"why": "the workflow failed on a long record", "status": {k: list(v) for k, v in st.items()}}}})
+        return
+    ctx.count("many_intervals_recession_intervals", len(t["recession_interval"]))
+    ctx.count("many_intervals_rising_intervals", len(t["rising_interval"] or []))
+    o = oracle_c13(t)
+    ctx.obligation("rows of a dataset with thousands of intervals trace back to their own intervals (oracle c13Holds)", o["result"])
+    if not o["result"]:
+        ctx.violation("impl-violation", "c13Holds", {"input": inp, "impl": {"recession_interval": t["recession_interval"][:5]}, "oracle": o})
+
+
 def run(ctx):
+    for _ in range(1 if ctx.tier == "quick" else 3):
+        many_intervals(ctx, ctx.rng.randint(4700, 5200) if ctx.tier == "quick" else ctx.rng.randint(5000, 7000))
     n = 24 if ctx.tier == "quick" else 600
     rng = ctx.rng
     steps = [1.0, 0.5, 2.0, 2.5, 0.1, 0.3, 0.25, 5.0]
